@@ -515,6 +515,15 @@ fn text_spellings(v: &Val, canon_text: &str, canon: &[bool]) -> Vec<(String, Str
             }
         }
     }
+    // an array whose elements are all equal, written as a repeat literal
+    if let Val::Arr(es) = v {
+        if !es.is_empty() && es.iter().all(|e| e == &es[0]) {
+            if let Ok(t) = catch(|| to_literal(&es[0]).to_string()) {
+                out.push(("repeat-text".into(), format!("[{t}; {}]", es.len()), Expect::May(canon.to_vec())));
+                out.push(("repeat-text-wrong-length".into(), format!("[{t}; {}]", es.len() + 1), Expect::MustErr));
+            }
+        }
+    }
     // an array repeat whose size is the name of a constant is no literal
     if let Val::Arr(es) = v {
         if let Some(first) = es.first() {
@@ -726,6 +735,18 @@ fn check_type(ty: &Ty, tier: Tier, cnt: &Cnt, coll: &Collector) {
             });
             // through the identity program the output bits are the input bits
             judge("set_literal", &expect, r, &site, &v.show(), case(&label, format!("{l:?}")), cnt, coll);
+        }
+        // (2c) Evaluator::parse_literal on the canonical text
+        if class == "plain" && !printed.contains("[]") {
+            let p2 = printed.clone();
+            let r = catch(|| {
+                let mut ev = gp.evaluator();
+                ev.parse_literal(&p2).map_err(|e| format!("parse_literal: {e:?}"))?;
+                ev.set_bool(false);
+                let out = ev.run().map_err(|e| format!("run: {e:?}"))?;
+                Vec::<bool>::try_from(out).map_err(|e| format!("output: {e:?}"))
+            });
+            judge("evaluator-parse_literal", &Expect::Must(canon.clone()), r, &format!("L/evaluator-parse_literal/{class}/{site_ty}"), &v.show(), case("canonical-text", printed.clone()), cnt, coll);
         }
         // (3) decode: parse_output(161 zero bits ++ canonical bits) == canonical literal; identity program
         // panic prefix of a run without panic: flag clear, reason field = 1 (as every compiled circuit emits it)
